@@ -45,5 +45,5 @@ ITEMS = [
     Item('load.limiter', K13.sym_limiter, [], 'dataflows/processors/load.py::load.limiter'),
     Item('load.stringer', K13.sym_stringer, [], 'dataflows/processors/load.py::load.stringer'),
     Item('load.stripper', K13.sym_stripper, [], 'dataflows/processors/load.py::load.stripper'),
-    Item('pipelines', None, [('look-ahead', N.nat_lookahead)], None),
+    Item('pipelines', None, [('look-ahead', N.nat_lookahead), ('sql-source', N.nat_lookahead_sql_source)], None),
 ]
